@@ -406,6 +406,13 @@ struct PatCase {
 }
 
 #[derive(Serialize, Deserialize, Hash, Clone, Debug)]
+struct BracketCase {
+    /// 0 = none, 1 = `!`, 2 = `^`
+    negation: u8,
+    members: Vec<String>,
+}
+
+#[derive(Serialize, Deserialize, Hash, Clone, Debug)]
 struct ClassCase {
     class: String,
     /// 0 = `[[:c:]]`, 1 = `[![:c:]]`, 2 = `[^[:c:]]`
@@ -459,6 +466,66 @@ fn valid_path(t: &[u8]) -> bool {
     !t.is_empty() && t.split(|c| *c == b'/').all(|c| !c.is_empty() && c != b"." && c != b"..")
 }
 
+/// Decide up to BATCH (pattern, mode) specs with one `git ls-files` run in `fixture` (an index holding every name of `names` below
+/// d0..d63) and compare with the transcription the way dir.c:git_fnmatch() calls wildmatch().
+fn bind_eval<N: AsRef<[u8]>>(fixture: &std::path::Path, names: &[N], c: &BindCase) -> Verdict {
+    let mut args: Vec<String> = vec!["ls-files".into(), "-z".into(), "--".into()];
+    for (i, s) in c.specs.iter().enumerate() {
+        let magic = match (s.glob, s.icase) {
+            (false, false) => "",
+            (true, false) => ":(glob)",
+            (false, true) => ":(icase)",
+            (true, true) => ":(glob,icase)",
+        };
+        let Ok(p) = std::str::from_utf8(&s.pattern) else { vkit::machinery!("non-utf8 pattern") };
+        args.push(format!("{magic}d{i}/{p}"));
+    }
+    let out = vkit::git::try_git(fixture, &args);
+    GIT_CALLS.fetch_add(1, Ordering::Relaxed);
+    if !out.ok {
+        vkit::machinery!("git {args:?} failed: {}", out.err_text());
+    }
+    let listed: std::collections::HashSet<&[u8]> = out.stdout.split(|b| *b == 0).filter(|s| !s.is_empty()).collect();
+    let mut any = 0u64;
+    let mut validated = 0u64;
+    let mut path = Vec::new();
+    for (i, s) in c.specs.iter().enumerate() {
+        let flags = (if s.glob { WM_PATHNAME } else { 0 }) | (if s.icase { WM_CASEFOLD } else { 0 });
+        // dir.c:git_fnmatch(): literal prefix (up to the first glob special) compared, the rest handed to wildmatch()
+        let n = s.pattern.iter().position(|b| is_glob_special(*b)).unwrap_or(s.pattern.len());
+        for name in names.iter().map(|n| n.as_ref()) {
+            let prefix_ok = name.len() >= n
+                && if s.icase { name[..n].eq_ignore_ascii_case(&s.pattern[..n]) } else { name[..n] == s.pattern[..n] };
+            let model = prefix_ok && git_wildmatch(&s.pattern[n..], &name[n..], flags);
+            path.clear();
+            path.extend_from_slice(format!("d{i}/").as_bytes());
+            path.extend_from_slice(name);
+            let git = listed.contains(path.as_slice());
+            if model != git {
+                vkit::machinery!(
+                    "transcription of dowild() disagrees with git: ls-files -- {:?} {} {:?}, transcription says {}",
+                    args[3 + i],
+                    if git { "lists" } else { "does not list" },
+                    path.as_bstr(),
+                    model
+                );
+            }
+            validated += 1;
+            if git {
+                any += 1;
+            }
+        }
+    }
+    VALIDATED.fetch_add(validated, Ordering::Relaxed);
+    VALIDATED_MATCH.fetch_add(any, Ordering::Relaxed);
+    BOUND_SPECS.fetch_add(c.specs.len() as u64, Ordering::Relaxed);
+    if any > 0 {
+        ok("bind:batch-agrees")
+    } else {
+        ok_trivial("bind:lists-nothing")
+    }
+}
+
 pub fn run(run: &'static Run) {
     run.rule(
         "patterns: every concatenation of <=4 (quick) / <=5 (thorough) tokens from {a,b,A,/,*,**,?,[ab],[!a],[a-b],[[:alpha:]],[[:upper:]],\\,[,]} \
@@ -466,7 +533,9 @@ pub fn run(run: &'static Run) {
          modes: {none, NO_MATCH_SLASH_LITERAL, IGNORE_CASE, both}. Each (pattern,text,mode) triple is decided by gix_glob::wildmatch and by \
          Pattern::from_bytes_without_negation(pattern).matches() (the literal-prefix / ends-with shortcuts; oracle applied to Pattern.text) and \
          compared with the transcription of git's dowild(). One case = one pattern (3124 triples). Sub-check classes: [[:c:]], [![:c:]], [^[:c:]] for the 12 POSIX \
-         classes (+ one unknown name) x every single-byte text 0x01..0xff x 4 modes, each also bound to git. non-trivial = the pattern contains a glob \
+         classes (+ one unknown name) x every single-byte text 0x01..0xff x 4 modes, each also bound to git. Sub-check brackets: `[` + {none,!,^} + every sequence of \
+         <=4 (quick) / <=5 (thorough) members over {a,m,z,-,],\\],[:digit:],[:alpha:],[:upper:],0,A} + `]` x every single-byte text 0x01..0xff and 10 longer texts x 4 modes \
+         (transcription bound to git for <=3 / <=4 members by git-bind-brackets). non-trivial = the pattern contains a glob \
          special and, in some mode, matches at least one text and rejects at least one",
     );
     run.assume("oracle = Rust transcription of wildmatch.c:dowild() of git 2.39.5; bound to the git binary by sub-check git-bind");
@@ -535,63 +604,7 @@ pub fn run(run: &'static Run) {
                 emit(BindCase { specs: batch });
             }
         },
-        |c: &BindCase| -> Verdict {
-            let mut args: Vec<String> = vec!["ls-files".into(), "-z".into(), "--".into()];
-            for (i, s) in c.specs.iter().enumerate() {
-                let magic = match (s.glob, s.icase) {
-                    (false, false) => "",
-                    (true, false) => ":(glob)",
-                    (false, true) => ":(icase)",
-                    (true, true) => ":(glob,icase)",
-                };
-                let Ok(p) = std::str::from_utf8(&s.pattern) else { vkit::machinery!("non-utf8 pattern") };
-                args.push(format!("{magic}d{i}/{p}"));
-            }
-            let out = vkit::git::try_git(fixture.path(), &args);
-            GIT_CALLS.fetch_add(1, Ordering::Relaxed);
-            if !out.ok {
-                vkit::machinery!("git {args:?} failed: {}", out.err_text());
-            }
-            let listed: std::collections::HashSet<&[u8]> = out.stdout.split(|b| *b == 0).filter(|s| !s.is_empty()).collect();
-            let mut any = 0u64;
-            let mut validated = 0u64;
-            let mut path = Vec::new();
-            for (i, s) in c.specs.iter().enumerate() {
-                let flags = (if s.glob { WM_PATHNAME } else { 0 }) | (if s.icase { WM_CASEFOLD } else { 0 });
-                // dir.c:git_fnmatch(): literal prefix (up to the first glob special) compared, the rest handed to wildmatch()
-                let n = s.pattern.iter().position(|b| is_glob_special(*b)).unwrap_or(s.pattern.len());
-                for name in names.iter() {
-                    let prefix_ok = name.len() >= n
-                        && if s.icase { name[..n].eq_ignore_ascii_case(&s.pattern[..n]) } else { name[..n] == s.pattern[..n] };
-                    let model = prefix_ok && git_wildmatch(&s.pattern[n..], &name[n..], flags);
-                    path.clear();
-                    path.extend_from_slice(format!("d{i}/").as_bytes());
-                    path.extend_from_slice(name);
-                    let git = listed.contains(path.as_slice());
-                    if model != git {
-                        vkit::machinery!(
-                            "transcription of dowild() disagrees with git: ls-files -- {:?} {} {:?}, transcription says {}",
-                            args[3 + i],
-                            if git { "lists" } else { "does not list" },
-                            path.as_bstr(),
-                            model
-                        );
-                    }
-                    validated += 1;
-                    if git {
-                        any += 1;
-                    }
-                }
-            }
-            VALIDATED.fetch_add(validated, Ordering::Relaxed);
-            VALIDATED_MATCH.fetch_add(any, Ordering::Relaxed);
-            BOUND_SPECS.fetch_add(c.specs.len() as u64, Ordering::Relaxed);
-            if any > 0 {
-                ok("bind:batch-agrees")
-            } else {
-                ok_trivial("bind:lists-nothing")
-            }
-        },
+        |c: &BindCase| bind_eval(fixture.path(), &names, c),
     );
     drop(fixture);
     run.cov("wall_git_bind_s", t0.elapsed().as_secs_f64());
@@ -691,6 +704,131 @@ pub fn run(run: &'static Run) {
             }
         },
     );
+
+    // ---- bracket expressions at member level ----
+    // `[` + optional negation + every sequence of members + `]`; a `]` member that is not first closes the expression early and the
+    // rest becomes a literal tail, `-` becomes a range operator or a literal depending on its neighbours (after a class it is literal).
+    const MEMBERS: [&str; 11] = ["a", "m", "z", "-", "]", "\\]", "[:digit:]", "[:alpha:]", "[:upper:]", "0", "A"];
+    const TEXTS2: [&[u8]; 10] = [b"a]", b"m]", b"z]", b"-]", b"]]", b"0]", b"a-", b"mm", b"am]", b"-z]"];
+    let t2 = std::time::Instant::now();
+    let max_members = run.pick(4, 5);
+    let mut bracket_texts: Vec<Vec<u8>> = (1..=255u8).map(|b| vec![b]).collect();
+    bracket_texts.extend(TEXTS2.iter().map(|t| t.to_vec()));
+    let bracket_texts = &bracket_texts;
+    run.sub_with(
+        "brackets",
+        vkit::Opts::default().chunk(4096),
+        |emit| {
+            for negation in 0..3u8 {
+                enumerate::seqs(&MEMBERS, 0, max_members, |m| emit(BracketCase { negation, members: m.iter().map(|s| s.to_string()).collect() }));
+            }
+        },
+        |c: &BracketCase| -> Verdict {
+            let pat = format!("[{}{}]", ["", "!", "^"][c.negation as usize], c.members.concat()).into_bytes();
+            let quirk = has_unfolded_upper(&pat);
+            let (mut yes, mut no, mut tolerated) = (0u64, 0u64, 0u64);
+            for m in 0..4u8 {
+                let in_quirk_region = m & 2 != 0 && quirk;
+                for text in bracket_texts.iter() {
+                    let expect = git_wildmatch(&pat, text, git_flags(m));
+                    let actual = gix_glob::wildmatch(pat.as_bstr(), text.as_bstr(), gix_mode(m));
+                    if expect != actual {
+                        if in_quirk_region {
+                            tolerated += 1;
+                            continue;
+                        }
+                        if std::env::var_os("C36_DEBUG").is_some() {
+                            eprintln!("DEBUG {:?} {:?} {} git={expect}", pat.as_bstr(), text.as_bstr(), mode_name(m));
+                        }
+                        return bad(
+                            "bracket",
+                            format!(
+                                "pattern {:?} text {:?} mode {}: git's wildmatch says {}, gix_glob::wildmatch says {}",
+                                pat.as_bstr(),
+                                text.as_bstr(),
+                                mode_name(m),
+                                expect,
+                                actual
+                            ),
+                        );
+                    }
+                    if expect {
+                        yes += 1;
+                    } else {
+                        no += 1;
+                    }
+                }
+            }
+            TRIPLES.fetch_add(4 * bracket_texts.len() as u64, Ordering::Relaxed);
+            MATCHES.fetch_add(yes, Ordering::Relaxed);
+            DOC_DEVIATIONS.fetch_add(tolerated, Ordering::Relaxed);
+            if yes == 0 || no == 0 {
+                return ok_trivial(if yes == 0 { "bracket:matches-nothing" } else { "bracket:matches-everything" });
+            }
+            let has = |m: &str| c.members.iter().any(|x| x == m);
+            let mut f = vec!["bracket"];
+            if c.members.iter().any(|x| x.starts_with("[:")) {
+                f.push("class");
+            }
+            if has("-") {
+                f.push("dash");
+            }
+            if has("]") || has("\\]") {
+                f.push("rbracket");
+            }
+            if c.negation != 0 {
+                f.push("negated");
+            }
+            ok(f.join("+"))
+        },
+    );
+    // bind the transcription to git for bracket expressions
+    let bracket_fixture = vkit::scratch::Dir::new("c36brk");
+    let mut bracket_names: Vec<Vec<u8>> = Vec::new();
+    {
+        vkit::git::init(bracket_fixture.path());
+        let mut input = Vec::new();
+        for d in 0..BATCH {
+            for t in bracket_texts.iter().filter(|t| valid_path(t)) {
+                input.extend_from_slice(format!("100644 e69de29bb2d1d6434b8b29ae775ad8c2e48c5391 0\td{d}/").as_bytes());
+                input.extend_from_slice(t);
+                input.push(0);
+            }
+        }
+        vkit::git::git_in(bracket_fixture.path(), &["update-index", "-z", "--index-info"], &input);
+        let listed = vkit::git::git(bracket_fixture.path(), &["ls-files", "-z", "--", "d0"]);
+        for n in listed.split(|c| *c == 0).filter(|s| !s.is_empty()) {
+            bracket_names.push(n[3..].to_vec());
+        }
+        if bracket_names.len() < 255 {
+            vkit::machinery!("bracket fixture holds only {} names", bracket_names.len());
+        }
+    }
+    let bind_members = run.pick(3, 4);
+    run.sub_with(
+        "git-bind-brackets",
+        vkit::Opts::default().chunk(64),
+        |emit| {
+            let mut batch = Vec::new();
+            for negation in ["", "!", "^"] {
+                enumerate::seqs(&MEMBERS, 0, bind_members, |m| {
+                    let p = format!("[{negation}{}]", m.concat()).into_bytes();
+                    for mode in 0..4u8 {
+                        batch.push(BindSpec { pattern: B(p.clone()), glob: mode & 1 != 0, icase: mode & 2 != 0 });
+                        if batch.len() == BATCH {
+                            emit(BindCase { specs: std::mem::take(&mut batch) });
+                        }
+                    }
+                });
+            }
+            if !batch.is_empty() {
+                emit(BindCase { specs: batch });
+            }
+        },
+        |c: &BindCase| bind_eval(bracket_fixture.path(), &bracket_names, c),
+    );
+    drop(bracket_fixture);
+    run.cov("wall_brackets_s", t2.elapsed().as_secs_f64());
 
     // ---- gitoxide vs transcription ----
     let max_tokens = run.pick(4, 5);
